@@ -85,7 +85,15 @@ def verify_function(repo, qual, con, types, contracts, specfuns=None, timeout_ms
         mod, node, cls = repo.func(real)
         f = Func(node, mod, (), qual.split(".")[-1], cls=cls, qual=qual)
         cases = con.get("cases") or [{}]
+        sel = os.environ.get("PYVC_CASES")
+        tier = os.environ.get("PYVC_TIER", "quick")
         for ci, case in enumerate(cases):
+            if sel and str(ci) not in sel.split(","):
+                continue
+            if not sel and tier == "quick" and con.get("quick_cases") is not None and ci not in con["quick_cases"]:
+                continue      # the remaining cases are verified in the thorough tier (stated in the contract)
+            if not sel and tier != "quick" and con.get("thorough_cases") is not None and ci not in con["thorough_cases"]:
+                continue
             E.loop_counter = {}
             E.active_case = case
             P = Path()
@@ -179,7 +187,7 @@ def verify_function(repo, qual, con, types, contracts, specfuns=None, timeout_ms
     except Exception:
         pass
     if fr.status == "ok":
-        import os, sys
+        import sys
         trace = os.environ.get("PYVC_TRACE")
         if trace:
             sys.stderr.write("[pyvc] %s: symbolic execution %.1fs, %d obligations, %d feasibility checks\n"
@@ -213,6 +221,23 @@ def discharge(ob, timeout_ms=10000):
     r = s.check()
     solver = "z3"
     if r == z3.unknown:
+        # stage 1b: relevance filter.  Quantified hypotheses that share no heap array / function symbol with the goal
+        # (two rounds of closure) are dropped - dropping hypotheses only weakens the premises, so `unsat` stays sound.
+        # On the large heap functions the full context drowns z3 in instantiations (170 000 in 15 s measured) although
+        # the proof needs a handful.
+        kept = relevant(ob.pc, ob.goal, rounds=int(os.environ.get("PYVC_RELEVANCE_ROUNDS", "2")))
+        if len(kept) < len(ob.pc):
+            s1 = z3.Solver()
+            s1.set("timeout", min(timeout_ms, 6000))
+            s1.set("qi.eager_threshold", 100.0)
+            for c in kept:
+                s1.add(c)
+            s1.add(z3.Not(ob.goal))
+            if s1.check() == z3.unsat:
+                r = z3.unsat
+                s = s1
+                solver = "z3(relevance-filtered hypotheses)"
+    if r == z3.unknown:
         # second configuration: deeper eager quantifier instantiation (chains of list/heap axioms); measured: queries
         # that time out with the default threshold are decided in seconds with it
         s2 = z3.Solver()
@@ -239,6 +264,88 @@ def discharge(ob, timeout_ms=10000):
     if ob.info.get("detail"):
         out["detail"] = ob.info["detail"]
     return out
+
+
+_SYM_CACHE = {}
+
+
+def symbols_of(e):
+    """names of the uninterpreted constants / functions occurring in e (cached per AST id)"""
+    k = e.get_id()
+    if k in _SYM_CACHE:
+        return _SYM_CACHE[k]
+    out = set()
+    seen = set()
+    stack = [e]
+    while stack:
+        t = stack.pop()
+        i = t.get_id()
+        if i in seen:
+            continue
+        seen.add(i)
+        if z3.is_quantifier(t):
+            stack.append(t.body())
+            continue
+        if z3.is_app(t):
+            d = t.decl()
+            if d.kind() == z3.Z3_OP_UNINTERPRETED:
+                nm = d.name()
+                if not nm.startswith(("q_", "sk_", "j!", "k!", "i!", "o!", "c!", "v!")):
+                    out.add(nm)
+            stack.extend(t.children())
+    _SYM_CACHE[k] = out
+    return out
+
+
+_GENERIC = ("H_$alloc", "H_$type", "null")
+
+
+def relevant(pc, goal, rounds=2):
+    """ground hypotheses are all kept; a quantified hypothesis is kept when it shares a non-generic symbol with the goal
+    or with a hypothesis kept in an earlier round"""
+    def core(syms):
+        return {x for x in syms if not x.startswith(_GENERIC)}
+    want = core(symbols_of(goal))
+    quant = [(c, core(symbols_of(c))) for c in pc if z3.is_quantifier(c) or _has_quantifier(c)]
+    ground = [c for c in pc if not (z3.is_quantifier(c) or _has_quantifier(c))]
+    for c in ground:
+        if core(symbols_of(c)) & want:
+            pass
+    kept_ids = set()
+    for _ in range(rounds):
+        new = set(want)
+        for c, sy in quant:
+            if c.get_id() not in kept_ids and sy & want:
+                kept_ids.add(c.get_id())
+                new |= sy
+        # ground equalities connect symbols too (x == y): follow them
+        for c in ground:
+            sy = core(symbols_of(c))
+            if sy & want and len(sy) <= 6:
+                new |= sy
+        want = new
+    return ground + [c for c, _ in quant if c.get_id() in kept_ids]
+
+
+_HQ = {}
+
+
+def _has_quantifier(e):
+    k = e.get_id()
+    if k in _HQ:
+        return _HQ[k]
+    stack, seen, res = [e], set(), False
+    while stack:
+        t = stack.pop()
+        if t.get_id() in seen:
+            continue
+        seen.add(t.get_id())
+        if z3.is_quantifier(t):
+            res = True
+            break
+        stack.extend(t.children())
+    _HQ[k] = res
+    return res
 
 
 def try_other_solvers(s, timeout_ms):
